@@ -152,7 +152,11 @@ def events(darsia, rng, shapes, quick):
         n = rng.randint(1, 4)
         h = rng.choice([[1.0, 1.0], [0.5, 0.25], [2.0, 0.5]])
         imgs, recs = [], []
-        offs = [[0, 0]] + [[rng.randint(0, 3), rng.randint(0, 3)] for _ in range(n - 1)]
+        # any image of the list may be the one that touches the low corner of the canvas (a later image may overhang
+        # the earlier ones on both sides of an axis)
+        offs = [[rng.randint(0, 3), rng.randint(0, 3)] for _ in range(n)]
+        mins = [min(o[0] for o in offs), min(o[1] for o in offs)]
+        offs = [[o[0] - mins[0], o[1] - mins[1]] for o in offs]
         if rng.random() < 0.3:
             offs = [[0, 0]] * n
         shp0 = (rng.randint(1, 4), rng.randint(1, 4))
